@@ -80,7 +80,7 @@ TEXT.update({
 })
 TEXT.update({
  "C10": dict(
-  level="Theorems: C10_unmarshal_total (Unmarshal returns a schema or an error on every document; the budget always suffices); C10_resolve_no_panic (no internal lookup of the resolver - bases, resource URIs, the cache of loaded documents, the per-document location tables - can fail: the model's Panic branches are unreachable for every schema tree, base URI, regexp oracle and loader table) and C10_resolve_returns (with a budget above the length of the loader's table Resolve returns a Resolved or an error: a loaded document is cached before its references are followed, so self- and mutually-referential loader documents terminate; the tree walk's budget size(s) always suffices, children_size generated for all 19 subschema-holding fields); C10_validate_returns (Validate returns Ok or Err whenever the specification defines a verdict) and an unsupported $schema is an error. Every explicit panic/assert site of the sources is accounted for by the obligation gen/ObPanics.v (regenerated on every run). For, ApplyDefaults on odd Go values and the adversarial inputs are decided by correspondence: outcome classes (ok/err/panic/hang) of families ref, dyn, ptr, repr against the model, and the law 'every call returns' of family robust (arbitrary bytes, malformed Schema graphs, hostile loaders, odd Go values, recursive and unsupported types).",
+  level="Theorems: C10_unmarshal_total (Unmarshal returns a schema or an error on every document; the budget always suffices); C10_resolve_no_panic (no internal lookup of the resolver - bases, resource URIs, the cache of loaded documents, the per-document location tables - can fail: the model's Panic branches are unreachable for every schema tree, base URI, regexp oracle and loader table) and C10_resolve_returns (with a budget above the length of the loader's table Resolve returns a Resolved or an error: a loaded document is cached before its references are followed, so self- and mutually-referential loader documents terminate; the tree walk's budget size(s) always suffices, children_size generated for all 19 subschema-holding fields); C10_fortype_returns (the model of For/ForType has no panicking branch and returns a schema, nothing or an error for every type nested less than 64 deep, whatever the options and TypeSchemas); C10_validate_returns (Validate returns Ok or Err whenever the specification defines a verdict) and an unsupported $schema is an error. Every explicit panic/assert site of the sources is accounted for by the obligation gen/ObPanics.v (regenerated on every run). For, ApplyDefaults on odd Go values and the adversarial inputs are decided by correspondence: outcome classes (ok/err/panic/hang) of families ref, dyn, ptr, repr against the model, and the law 'every call returns' of family robust (arbitrary bytes, malformed Schema graphs, hostile loaders, odd Go values, recursive and unsupported types).",
   note="Partial: totality is proved for Unmarshal, Resolve and (where the specification is defined) Validate on tree-shaped schemas; pointer graphs with sharing/cycles, For on recursive types and reflection over odd Go values are covered by robustness testing with panic and hang detection.",
  ),
 })
